@@ -150,9 +150,11 @@ structure MonSt where
   prev : Option Snap
   final : Option Nat        -- last-stream-id of the final GOAWAY seen on the wire
   extClose : Bool           -- the test itself ended the connection (close / peerclose / end / protocol violation)
+  ackSeen : Bool            -- the client's ack of the drain PING was sent
+  late : List Nat           -- streams accepted after that ack and before the final GOAWAY appeared on the wire
 deriving Inhabited
 
-def MonSt.init : MonSt := { prev := none, final := none, extClose := false }
+def MonSt.init : MonSt := { prev := none, final := none, extClose := false, ackSeen := false, late := [] }
 
 /-- a GOAWAY frame in the wire list that is not the heads-up one -/
 def finalOf (w : List String) : Option (Nat × Nat) :=
@@ -179,6 +181,10 @@ def monitor (m : MonSt) (fs : List String) (impl : String) : MonSt × String :=
          | some sid, some p => sid % 2 ≠ 1 || sid ≤ p.max || sid = 0
          | _, _ => false)
       | _ => false)
+    let ackSeen := m.ackSeen || (match fs with | ["pingack", d] => d = "0106010800030309" | _ => false)
+    let prevIds : List Nat := match m.prev with | some p => p.streams.map (fun (e : SEntry) => e.id) | none => []
+    let newIds := (c.streams.map (fun (e : SEntry) => e.id)).filter fun i => !(prevIds.contains i)
+    let late := if m.ackSeen && m.final.isNone then m.late ++ newIds else m.late
     let fin := finalOf c.wire
     let final := match fin with | some (i, 0) => some i | _ => m.final
     let v1 : List (Option String) :=
@@ -199,11 +205,12 @@ def monitor (m : MonSt) (fs : List String) (impl : String) : MonSt × String :=
         if (c.st = "C" || c.eof) && !ext then
           c.streams.map fun e =>
             if e.id ≤ n && !(e.flags.toList.contains 'd') then
-              some s!"connection closed by the draining server while accepted stream {e.id} <= final GOAWAY id {n} is unfinished"
+              some (s!"connection closed by the draining server while accepted stream {e.id} <= final GOAWAY id {n} is unfinished" ++
+                (if late.contains e.id then " (accepted after the PING ack, before loopy wrote the final GOAWAY)" else ""))
             else none
         else []
       | none => []
     let leak : Option String := if c.leak ≠ 0 then some s!"{c.leak} goroutine(s) outlive the closed connection" else none
-    ({ prev := some c, final := final, extClose := ext }, firstViol (v1 ++ [v3] ++ v2 ++ [leak]))
+    ({ prev := some c, final := final, extClose := ext, ackSeen := ackSeen, late := late }, firstViol (v1 ++ [v3] ++ v2 ++ [leak]))
 
 end GrpcModel.ServerDrainSim
